@@ -1,240 +1,3 @@
-import NxModel.Nex.Schema
-import NxModel.DriverUtil
-/-! line-protocol driver for the schema interpreter (C13; C12 and C14 use the same executable logic)
-
- state: one environment (starts as the `common.py` builtins)
-  reset                                             -> ok
-  struct <name> <parent|-> [ items ]                -> ok          items: F <name> <ty> <0|1> | N <v> [ items ] | R <r> [ items ]
-  proto <name> <id> <noresponse 0|1>                -> ok
-  method <proto> <id> <name> <supported 0|1> [ F.. ] [ F.. ]   -> ok
-  enc|vis <nex> <hdr> <pid> <fuel> <ty> <val>       -> ok <hex> | ok <val> | err <Name>
-  dec <nex> <hdr> <pid> <fuel> <ty> <hex>           -> ok <val> | <resthex>
-  req|sresp|visreq|visresp <cfg..> <proto> <method> [ vals ]   -> ok <protoid> <methodid> <hex> | ok <hex> | ok [ vals ]
-  sreq|cresp <cfg..> <proto> <method> <hex>         -> ok [ vals ]
-  maxver <nex> <fuel> <struct>                      -> ok <n>
-  wf                                                -> ok <structs> <revisions> <protos>
-  wfrev <struct>                                    -> ok <0|1>
- types: u1 u2 u4 u8 s1 s2 s4 s8 f32 f64 bool pid result datetime string stationurl buffer qbuffer anydata variant, L <ty>, M <k> <v>, S <name>
- values: n | a (absent) | i<int> | t | f | s<hex> | b<hex> | d<bits> | D<value> | l [ vals ] | m [ k v .. ] | o <cls> [ vals ]
--/
-open Nx Nx.Schema
-
-abbrev P (α : Type) := List String → Option (α × List String)
-
-partial def pTy : P Ty
-  | "u1" :: r => some (.uint .b1, r) | "u2" :: r => some (.uint .b2, r)
-  | "u4" :: r => some (.uint .b4, r) | "u8" :: r => some (.uint .b8, r)
-  | "s1" :: r => some (.sint .b1, r) | "s2" :: r => some (.sint .b2, r)
-  | "s4" :: r => some (.sint .b4, r) | "s8" :: r => some (.sint .b8, r)
-  | "f32" :: r => some (.float, r) | "f64" :: r => some (.double, r)
-  | "bool" :: r => some (.bool, r) | "pid" :: r => some (.pid, r)
-  | "result" :: r => some (.result, r) | "datetime" :: r => some (.datetime, r)
-  | "string" :: r => some (.string, r) | "stationurl" :: r => some (.stationurl, r)
-  | "buffer" :: r => some (.buffer, r) | "qbuffer" :: r => some (.qbuffer, r)
-  | "anydata" :: r => some (.anydata, r) | "variant" :: r => some (.variant, r)
-  | "L" :: r => do let (t, r) ← pTy r; some (.list t, r)
-  | "M" :: r => do let (k, r) ← pTy r; let (v, r) ← pTy r; some (.map k v, r)
-  | "S" :: n :: r => do let n ← n.toNat?; some (.struct n, r)
-  | _ => none
-
-mutual
-partial def pItems : P Items
-  | "[" :: r => pItemsTail r
-  | _ => none
-partial def pItemsTail : P Items
-  | "]" :: r => some (.nil, r)
-  | "F" :: n :: r => do
-    let n ← n.toNat?
-    let (ty, r) ← pTy r
-    match r with
-    | d :: r => do
-      let (rest, r) ← pItemsTail r
-      some (.field n ty (d == "1") rest, r)
-    | [] => none
-  | "N" :: v :: r => do
-    let v ← v.toNat?
-    let (body, r) ← pItems r
-    let (rest, r) ← pItemsTail r
-    some (.nex v body rest, r)
-  | "R" :: v :: r => do
-    let v ← v.toNat?
-    let (body, r) ← pItems r
-    let (rest, r) ← pItemsTail r
-    some (.rev v body rest, r)
-  | _ => none
-end
-
-def itemsToArgs : Items → List (Name × Ty)
-  | .field n ty _ r => (n, ty) :: itemsToArgs r
-  | _ => []
-
-mutual
-partial def pVal : P Val
-  | "n" :: r => some (.none, r)
-  | "a" :: r => some (.absent, r)
-  | "t" :: r => some (.bool true, r)
-  | "f" :: r => some (.bool false, r)
-  | "l" :: "[" :: r => do let (vs, r) ← pVals r; some (.list vs, r)
-  | "m" :: "[" :: r => do let (vs, r) ← pVals r; some (.map (pairUp vs), r)
-  | "o" :: c :: "[" :: r => do let c ← c.toNat?; let (vs, r) ← pVals r; some (.obj c vs, r)
-  | tok :: r =>
-    let body := (tok.drop 1).toString
-    match tok.toList.head? with
-    | some 'i' => do let i ← body.toInt?; some (.int i, r)
-    | some 's' => do let b ← fromHex body; some (.str b, r)
-    | some 'b' => do let b ← fromHex body; some (.bytes b, r)
-    | some 'd' => do let n ← body.toNat?; some (.dbl n, r)
-    | some 'D' => do let n ← body.toNat?; some (.dt n, r)
-    | _ => none
-  | [] => none
-partial def pVals : P (List Val)
-  | "]" :: r => some ([], r)
-  | toks => do let (v, r) ← pVal toks; let (vs, r) ← pVals r; some (v :: vs, r)
-partial def pairUp : List Val → List (Val × Val)
-  | k :: v :: r => (k, v) :: pairUp r
-  | _ => []
-end
-
-mutual
-partial def showVal : Val → String
-  | .none => "n"
-  | .absent => "a"
-  | .int i => s!"i{i}"
-  | .bool true => "t"
-  | .bool false => "f"
-  | .str s => "s" ++ hexOut s
-  | .bytes b => "b" ++ hexOut b
-  | .dbl n => s!"d{n}"
-  | .dt n => s!"D{n}"
-  | .list vs => "l " ++ showVals vs
-  | .map kvs => "m [" ++ String.join (kvs.map fun kv => " " ++ showVal kv.1 ++ " " ++ showVal kv.2) ++ " ]"
-  | .obj c vs => s!"o {c} " ++ showVals vs
-partial def showVals (vs : List Val) : String := "[" ++ String.join (vs.map fun v => " " ++ showVal v) ++ " ]"
-end
-
-def pCfg : P (Cfg × Nat)
-  | nex :: hdr :: pid :: fuel :: r => do
-    let nex ← nex.toNat?; let pid ← pid.toNat?; let fuel ← fuel.toNat?
-    some (({ nexVersion := nex, structHeader := hdr == "1", pidSize := pid }, fuel), r)
-  | _ => none
-
-def showErr (e : Err) : String := "err " ++ e.name
-
-def pMethod (env : Env) : P (ProtoDef × MethodDef)
-  | p :: m :: r => do
-    let p ← p.toNat?; let m ← m.toNat?
-    let pd ← findProto env p
-    let md ← findMethod pd m
-    some ((pd, md), r)
-  | _ => none
-
-def b01 (b : Bool) : String := if b then "1" else "0"
-
-def step (env : Env) (line : String) : Env × String :=
-  let bad := (env, "bad-op")
-  match words line with
-  | ["reset"] => ({ structs := builtins, protos := [] }, "ok")
-  | "struct" :: n :: p :: r =>
-    (match n.toNat?, pItems r with
-     | some n, some (items, []) =>
-       let parent := if p == "-" then none else p.toNat?
-       if p != "-" && parent.isNone then bad else
-       ({ env with structs := env.structs ++ [{ name := n, parent, items }] }, "ok")
-     | _, _ => bad)
-  | ["proto", n, id, nr] =>
-    (match n.toNat?, id.toNat? with
-     | some n, some id => ({ env with protos := env.protos ++ [{ name := n, id, noresponse := nr == "1", methods := [] }] }, "ok")
-     | _, _ => bad)
-  | "method" :: p :: id :: n :: sup :: r =>
-    (match p.toNat?, id.toNat?, n.toNat?, pItems r with
-     | some p, some id, some n, some (req, r) =>
-       match pItems r with
-       | some (resp, []) =>
-         let m : MethodDef := { id, name := n, supported := sup == "1", request := itemsToArgs req, response := itemsToArgs resp }
-         if (findProto env p).isNone then bad else
-         ({ env with protos := env.protos.map fun pd => if pd.name == p then { pd with methods := pd.methods ++ [m] } else pd }, "ok")
-       | _ => bad
-     | _, _, _, _ => bad)
-  | "enc" :: r =>
-    (match pCfg r with
-     | some ((cfg, fuel), r) =>
-       match pTy r with
-       | some (ty, r) =>
-         match pVal r with
-         | some (v, []) => (env, match encode env cfg fuel ty v with | .ok b => "ok " ++ hexOut b | .error e => showErr e)
-         | _ => bad
-       | none => bad
-     | none => bad)
-  | "vis" :: r =>
-    (match pCfg r with
-     | some ((cfg, fuel), r) =>
-       match pTy r with
-       | some (ty, r) =>
-         match pVal r with
-         | some (v, []) => (env, "ok " ++ showVal (visible env cfg fuel ty v))
-         | _ => bad
-       | none => bad
-     | none => bad)
-  | "dec" :: r =>
-    (match pCfg r with
-     | some ((cfg, fuel), r) =>
-       match pTy r with
-       | some (ty, [h]) =>
-         match fromHex h with
-         | some b => (env, match decode env cfg fuel ty b with
-                           | .ok (v, rest) => "ok " ++ showVal v ++ " | " ++ hexOut rest
-                           | .error e => showErr e)
-         | none => bad
-       | _ => bad
-     | none => bad)
-  | op :: r =>
-    if op == "req" || op == "sresp" || op == "visreq" || op == "visresp" then
-      match pCfg r with
-      | some ((cfg, fuel), r) =>
-        match pMethod env r with
-        | some ((pd, md), "[" :: r) =>
-          match pVals r with
-          | some (vs, []) =>
-            if op == "req" then
-              (env, match clientRequest env cfg fuel pd md vs with
-                    | .ok (p, m, b) => s!"ok {p} {m} " ++ hexOut b | .error e => showErr e)
-            else if op == "sresp" then
-              (env, match serverResponse env cfg fuel md vs with | .ok b => "ok " ++ hexOut b | .error e => showErr e)
-            else if op == "visreq" then (env, "ok " ++ showVals (visArgs env cfg fuel md.request vs))
-            else (env, "ok " ++ showVals (visArgs env cfg fuel md.response vs))
-          | _ => bad
-        | _ => bad
-      | none => bad
-    else if op == "sreq" || op == "cresp" then
-      match pCfg r with
-      | some ((cfg, fuel), r) =>
-        match pMethod env r with
-        | some ((_, md), [h]) =>
-          match fromHex h with
-          | some b =>
-            let res := if op == "sreq" then serverRequest env cfg fuel md b else clientResponse env cfg fuel md b
-            (env, match res with | .ok vs => "ok " ++ showVals vs | .error e => showErr e)
-          | none => bad
-        | _ => bad
-      | none => bad
-    else if op == "maxver" then
-      match r with
-      | [nex, fuel, n] =>
-        (match nex.toNat?, fuel.toNat?, n.toNat? with
-         | some nex, some fuel, some n => (env, s!"ok {effMaxVersion env nex fuel n}")
-         | _, _, _ => bad)
-      | _ => bad
-    else if op == "wf" then
-      (env, s!"ok {b01 (wfStructs env)} {b01 (wfRevisions env)} {b01 (wfProtos env)}")
-    else if op == "wfrev" then
-      match r with
-      | [n] => (match n.toNat? with
-                | some n => (match lookup env n with
-                             | some d => (env, "ok " ++ b01 d.items.revAscending)
-                             | none => (env, "err KeyError"))
-                | none => bad)
-      | _ => bad
-    else bad
-  | [] => bad
-
-def main : IO Unit := runState ({ structs := builtins, protos := [] } : Env) step
+import NxModel.Nex.SchemaDriver
+/-! driver for C13: the schema interpreter line protocol (see NxModel/Nex/SchemaDriver.lean) -/
+def main : IO Unit := Nx.runState Nx.Schema.Drv.initEnv Nx.Schema.Drv.step
